@@ -176,14 +176,15 @@ def code_case(case):
         r.v("C01/code-dT/%s" % case["method"], "step length returned", case, observed=repr(dT), expected=repr(h))
         return r
     exact = (h ** size[:N]) / gam[:N]
-    ratio = np.abs(dY - exact) / (K * U64 * size[:N] * wabs)
+    hp = np.abs(h) ** size[:N]                     # the component of a tree of order q is homogeneous of degree q in h
+    ratio = np.abs(dY - exact) / (K * U64 * size[:N] * wabs * hp)
     att = attained(ratio, off, p)
     r.out(("code", case["method"], float(h), tl, case["via"], att >= p))
     if att < p:
         i, rt = worst(ratio, off, att + 1)
         r.v("C01/code-order/%s/attains%d" % (case["method"], att), "declared order through the real step", case,
             observed=dict(attained=att, tree=int(i), residual=float(abs(dY[i] - exact[i])), ratio_to_rounding_bound=rt), expected=dict(declared=p))
-    agree = np.abs(dY - w * h ** size[:N]) / (K * EPS_LD * size[:N] * wabs * T.shape[0])
+    agree = np.abs(dY - w * h ** size[:N]) / (K * EPS_LD * size[:N] * wabs * T.shape[0] * hp)
     if np.any(agree > 1):
         i = int(np.argmax(agree))
         r.v("C01/code-vs-table/%s" % case["method"], "real step == B-series of its own table", case,
@@ -192,11 +193,11 @@ def code_case(case):
     # the SAME integrator object, second step from an unrelated exact point (t1, y(t1)) -- not the end of its previous step.
     # The universal ODE is polynomial: a method of order p reproduces y_tau(t1 + h2) exactly for every |tau| <= p from exact data at any t1.
     if case["via"] == "call" and not tl:
-        t1 = LD(0.5) * np.sign(h); h2 = LD(-0.75) * np.sign(h)
+        t1 = LD(0.5) * h; h2 = LD(-0.75) * h
         y1 = (t1 ** size[:N]) / gam[:N]
         _, (dT2, dY2) = m(de.DiffRHS(rhs), t1, np.asarray(y1, dtype=LD), {}, h2)
         want = ((t1 + h2) ** size[:N]) / gam[:N] - y1
-        tol2 = K * U64 * size[:N] * wabs * (LD(2.25) ** size[:N])
+        tol2 = K * U64 * size[:N] * wabs * (LD(2.25) ** size[:N]) * hp
         ratio2 = np.abs(np.asarray(dY2, dtype=LD) - want) / tol2
         att2 = attained(ratio2, off, p)
         r.n += N
@@ -432,6 +433,11 @@ def cases(ctx):
     out["code"] = [dict(method=M.__name__, h=h, time_leaves=tl, via=via)
                    for M in expl for h in (1.0, -1.0) for tl in (False, True) for via in ("step", "call")
                    if not (ctx.quick and int(M.__order__) >= 14 and (via == "call" or (tl and h < 0)))]
+    # small steps of either sign ("all sufficiently small step sizes"): dyadic, so that the powers of h are exact; anything the step code decides by
+    # comparing h-scaled coefficients with an absolute threshold shows up here and not at |h| = 1
+    out["code"] += [dict(method=M.__name__, h=h, time_leaves=tl, via=via)
+                    for M in expl for h in (2.0 ** -7, -2.0 ** -7) + (() if ctx.quick else (2.0 ** -12, -2.0 ** -12)) for tl in (False, True) for via in ("step", "call")
+                    if not (ctx.quick and ((int(M.__order__) >= 14 and (via == "call" or tl or h < 0)) or (int(M.__order__) < 14 and via == "step" and tl)))]
     out["split"] = [dict(method=M.__name__, h=h, mask=mk) for M in split_classes() for h in (1.0, -1.0) for mk in ("default", "explicit", "swapped")]
     impl = [M for M in rk_classes() if M in I.implicit_methods()]
     out["implicit"] = [dict(method=M.__name__, h=h) for M in impl for h in ((0.5, -0.5) if ctx.quick else (0.5, -0.5, 0.25, -0.25))]
